@@ -9,6 +9,10 @@ pushed through every validation entry point:
   sidecar  Sidecar.validate (categorical + value columns, definitions, column references, structural faults)
   table    TabularInput.validate (HED column + sidecar columns, with and without an onset column)
   dataset  BidsDataset.validate on a small generated dataset (two subjects, inherited sidecar)
+A second pool ("forms", rt/c12_forms.py) writes the faulty tag in long, partially long, short form, in other letter cases
+and with a namespace prefix (schema ts:8.3.0) and sends it through the string, sidecar and table entry points: the fragment
+a message quotes must be source_text[char_index:char_index_end] of the annotation AS WRITTEN
+(C12.message.quotes_the_located_fragment).
 Every issue returned is checked by an independent monitor (own tokenizer for tag/group spans), every issue list by the
 list-level relations of the property (errors-only = error subset, sort, export, re-decoration).
 """
@@ -21,6 +25,9 @@ import shutil
 import tempfile
 
 from rt.common import Workload, main, schema, codes  # noqa: F401
+from rt import c12_forms as F
+
+L_QUOTE = "C12.message.quotes_the_located_fragment"
 
 SUFFIX = "Problem spans string indexes"
 SUFFIX_RE = re.compile(r"Problem spans string indexes: (-?\d+), (-?\d+)")
@@ -189,6 +196,17 @@ def check_issue(w, i, inp, entry, text=None, d10_path=False):
                 _count["sub_tag"] += 1
                 w.check(("'" + frag + "'") in base_message(msg), "C12.offsets.fragment_is_quoted_text", inp, brief(i),
                         "message quotes '%s'" % frag)
+                # the tag AS WRITTEN that holds the span (own tokenizer, no HedTag attribute involved): the message must
+                # quote exactly source_text[char_index:char_index_end] next to it, whatever form the tag is written in
+                toks = [(s, e) for (s, e) in spans_of(vtext) if s <= ci and ce <= e and vtext[s] != "("]
+                if toks:
+                    s0, e0 = min(toks, key=lambda se: se[1] - se[0])
+                    verdict = F.quotes_fragment(base_message(msg), frag, vtext[s0:e0])
+                    if verdict is not None:
+                        _count["quoted"] += 1
+                        w.check(verdict, L_QUOTE, inp, brief(i),
+                                {"tag as written": vtext[s0:e0], "source_text[char_index:char_index_end]": frag,
+                                 "the message quotes it as one of": F.quoting_patterns(frag, vtext[s0:e0])[:3]})
             else:
                 w.check((ci, ce) in cands, "C12.offsets.fragment_is_quoted_text", inp, brief(i),
                         {"whole tag": named, "spans": cands})
@@ -302,7 +320,7 @@ def check_sort(w, perm, inp):
 # ------------------------------------------------------------------------------------------------------------------
 # entry points
 # ------------------------------------------------------------------------------------------------------------------
-_count = {"issues": 0, "with_offsets": 0, "sub_tag": 0, "sorted_lists": 0}
+_count = {"issues": 0, "with_offsets": 0, "sub_tag": 0, "sorted_lists": 0, "quoted": 0, "quoted_no_offsets": 0}
 _pool_for_sort = []
 _raised = []   # inputs on which an entry point raised: C12 says nothing about them (C07/C08 do); reported, not judged
 
@@ -359,6 +377,81 @@ def run_string(w, text, count=True):
         check_lists(w, res["plain"], res["plain_off"], dict(inp, handler="none"), redecorate=False)
 
 
+def check_unlocated_sub_tag(w, i, inp, text):
+    """an issue returned without a string context carries only index_in_tag/index_in_tag_end (relative to the tag as
+    written): some tag of the text, cut at these indices, must be what the message quotes next to that tag"""
+    a, b = i.get("index_in_tag"), i.get("index_in_tag_end")
+    if not (isinstance(a, int) and isinstance(b, int)):
+        return
+    msg = base_message(i.get("message", ""))
+    verdicts = []
+    for (s, e) in spans_of(text):
+        t = text[s:e]
+        if t.startswith("(") or not (0 <= a <= b <= len(t)):
+            continue
+        v = F.quotes_fragment(msg, t[a:b], t)
+        if v is not None:
+            verdicts.append((t, t[a:b], v))
+    if verdicts:
+        _count["quoted_no_offsets"] += 1
+        w.check(any(v for _, _, v in verdicts), L_QUOTE, inp, brief(i),
+                {"index_in_tag": [a, b], "tags as written naming candidates": [[t, f] for t, f, _ in verdicts][:3],
+                 "expected": "the message quotes tag[index_in_tag:index_in_tag_end] of the tag as written"})
+
+
+def run_located(w, text, version="8.3.0", meta=None, count=True):
+    """string entry point for the 'forms' part: plain validate (issues carry index_in_tag only) and validate under a
+    HED_STRING context (issues carry char_index/char_index_end), warnings on"""
+    from hed import HedString
+    from hed.validator import HedValidator
+    from hed.errors.error_reporter import ErrorHandler
+    from hed.errors.error_types import ErrorContext
+    s = schema(version)
+    inp = {"entry": "located", "text": text, "schema": version}
+    if meta:
+        inp["form"] = meta
+    try:
+        plain = HedString(text, s).validate(allow_placeholders=False)
+        hs = HedString(text, s)
+        eh = ErrorHandler(check_for_warnings=True)
+        eh.push_error_context(ErrorContext.HED_STRING, hs)
+        ctx = HedValidator(s).validate(hs, allow_placeholders=False, error_handler=eh)
+    except Exception as e:  # noqa
+        _raised.append({"input": inp, "exception": repr(e)[:160]})
+        return 0
+    sub = [i for i in ctx if "index_in_tag" in i]
+    if count:
+        w.case(key=("located", version, text), nontrivial=bool(sub),
+               sample={"entry": "located", "text": text, "schema": version, "codes": [i["code"] for i in ctx]})
+    for i in plain:
+        check_issue(w, i, dict(inp, handler="none"), "string", text=text)
+        check_unlocated_sub_tag(w, i, dict(inp, handler="none"), text)
+    for i in ctx:
+        check_issue(w, i, dict(inp, handler="HED_STRING context"), "string", text=text, d10_path=True)
+    w.check([(i["code"], i["severity"]) for i in plain] == [(i["code"], i["severity"]) for i in ctx],
+            "C12.entry.handler_does_not_change_codes", inp, [i["code"] for i in plain], [i["code"] for i in ctx])
+    return len(sub)
+
+
+def forms_preconditions():
+    """every suffix form of every hand-written long path is a valid spelling (with and without namespace)"""
+    from hed import HedString
+    from hed.errors.error_types import ErrorSeverity
+    bad = []
+    for version, ns in (("8.3.0", ""), (NS_VERSION, NS)):
+        s = schema(version)
+        for t in F.valid_spellings():
+            t = F.with_namespace(t, ns) if ns else t
+            issues = HedString(t, s).validate(allow_placeholders=False)
+            if any(i["severity"] == ErrorSeverity.ERROR for i in issues):
+                bad.append((version, t, [i["code"] for i in issues]))
+    return bad
+
+
+NS = "ts:"
+NS_VERSION = "ts:8.3.0"
+
+
 def make_sidecar(strings, values, defs=None, extra=None):
     d = {}
     half = (len(strings) + 1) // 2
@@ -374,11 +467,13 @@ def make_sidecar(strings, values, defs=None, extra=None):
     return d
 
 
-def run_sidecar(w, sc, count=True):
+def run_sidecar(w, sc, count=True, version="8.3.0"):
     from hed import Sidecar
     from hed.errors.error_reporter import ErrorHandler
-    s = schema("8.3.0")
+    s = schema(version)
     inp = {"entry": "sidecar", "sidecar": sc}
+    if version != "8.3.0":
+        inp["schema"] = version
     res = {}
     try:
         for warn in (True, False):
@@ -407,12 +502,14 @@ def run_sidecar(w, sc, count=True):
     _pool_for_sort.extend(res[True])
 
 
-def run_table(w, rows, sc, onset, count=True):
+def run_table(w, rows, sc, onset, count=True, version="8.3.0"):
     import pandas as pd
     from hed import Sidecar, TabularInput
     from hed.errors.error_reporter import ErrorHandler
-    s = schema("8.3.0")
+    s = schema(version)
     inp = {"entry": "table", "rows": rows, "sidecar": sc, "onset": onset}
+    if version != "8.3.0":
+        inp["schema"] = version
     res = {}
     try:
         for warn in (True, False):
@@ -497,7 +594,10 @@ def run(w: Workload):
               "chunks through sidecars (categorical+value+definition+reference columns), tables (with/without onset column) and "
               "one generated BIDS dataset; a case = one (entry point, input); every returned issue is monitored "
               "(form, offsets vs. own tokenizer, quoted fragment, suffix) and every list checked (errors-only, sort, export, "
-              "re-decoration)")
+              "re-decoration); forms: 5 tags with hand-written long paths x every suffix form (long/partially long/short) x "
+              "letter-case variants x faulty tails (invalid characters in value and extension, invalid extension, extra "
+              "slashes/blanks, placeholder, mistyped path nodes), plain and namespace-prefixed, through the string, sidecar and "
+              "table entry points: the fragment the message quotes must equal source_text[char_index:char_index_end]")
     texts = pool(w)
     for t in texts:
         run_string(w, t)
@@ -538,6 +638,78 @@ def run(w: Workload):
         run_dataset(w, w.rng.sample(ds_texts, 24))
     w.part("dataset entry point", cases=w.evaluations - before, bound="generated BIDS datasets: one inherited sidecar, two "
            "event files, 24 sampled annotations each", exhaustive=False)
+    # forms: the faulty tag in long / partially long / short form, other letter case, with a namespace prefix
+    before = w.evaluations
+    bad = forms_preconditions()
+    if bad:
+        raise AssertionError("workload precondition: spellings expected to be valid are rejected: %r" % bad[:5])
+    atoms = F.atoms(not w.quick)
+    n_ctx = len(F.CONTEXTS)
+    stats = {}
+    n_strings = 0
+    for k, a in enumerate(atoms):
+        ctxs = sorted({k % n_ctx, (k + 2) % n_ctx}) if w.quick else range(n_ctx)
+        meta = {"form": a["form"], "case": a["case"], "tail": a["tail"]}
+        for c in ctxs:
+            n_strings += 1
+            hit = run_located(w, F.CONTEXTS[c] % a["text"], "8.3.0", meta)
+            key = (a["form"], a["case"], "")
+            stats[key] = stats.get(key, 0) + (1 if hit else 0)
+        if a["case"] in ("declared", "alternating") or not w.quick:
+            n_strings += 1
+            text = F.with_namespace(F.CONTEXTS[(k + 1) % n_ctx] % a["text"], NS)
+            hit = run_located(w, text, NS_VERSION, dict(meta, namespace=NS))
+            key = (a["form"], a["case"], NS)
+            stats[key] = stats.get(key, 0) + (1 if hit else 0)
+    w.part("forms: string entry point", cases=w.evaluations - before,
+           bound="%d faulty tags = 5 hand-written long paths x every suffix form (long, partially long, short) x %d letter "
+                 "cases x 3-10 faulty tails + 9 broken paths, each in %s of 5 surrounding contexts, plus namespace-prefixed "
+                 "copies under schema %s; annotations with >= 1 sub-tag issue per (form, case, namespace): %s"
+                 % (len(atoms), 3 if w.quick else 4, "2" if w.quick else "all", NS_VERSION,
+                    {"/".join(x for x in k if x): v for k, v in sorted(stats.items())}), exhaustive=False)
+    before = w.evaluations
+    value_forms = ["Property/Informational-property/Label/#", "Informational-property/Label/#$x",
+                   "Property/Data-property/Data-value/Physical-value/Weight/# k$g", "Item/Object/Man-made-object/Building/#",
+                   "Object/Zork/#", "property/INFORMATIONAL-PROPERTY/label/# @"]
+    sc_atoms = [a["text"] for a in atoms if a["case"] in (("declared", "lower") if w.quick else
+                                                         ("declared", "lower", "alternating", "upper"))]
+    if w.quick:
+        sc_atoms = sc_atoms[::2] + [a["text"] for a in atoms if a["form"] == "broken_path"]
+    for k, chunk in enumerate(chunks(sc_atoms, 8)):
+        vals = [value_forms[(k + j) % len(value_forms)] for j in range(2)]
+        if k % 3 == 2:
+            run_sidecar(w, make_sidecar([F.with_namespace(t, NS) for t in chunk], [F.with_namespace(v, NS) for v in vals]),
+                        version=NS_VERSION)
+        else:
+            run_sidecar(w, make_sidecar(chunk, vals))
+    w.part("forms: sidecar entry point", cases=w.evaluations - before, bound="the faulty tags (quick: every second of the "
+           "declared/lower-case ones) in chunks of 8 as category entries, 2 of 6 long-form value-column strings; every third "
+           "sidecar namespace-prefixed", exhaustive=False)
+    before = w.evaluations
+    tb_atoms = [a["text"] for a in atoms if a["case"] in (("declared", "alternating") if w.quick else
+                                                         ("declared", "lower", "alternating", "upper"))]
+    if w.quick:
+        tb_atoms = tb_atoms[1::2]
+    sc_long = {"cond": {"HED": {"a": "Item/Object/Man-made-object/Building/Hut!", "b": "(Green)",
+                                "c": "Property/Informational-property/Label/a$b"}},
+               "val": {"HED": "(Property/Data-property/Data-value/Spatiotemporal-value/Temporal-value/Duration/# s, "
+                              "(Item/Zork)), Informational-property/Label/#"}}
+    for k, chunk in enumerate(chunks(tb_atoms, 6)):
+        rows = {"cond": [["a", "b", "zz", "n/a", "c", "a"][j % 6] for j in range(len(chunk))],
+                "val": [["3", "x y", "n/a"][j % 3] for j in range(len(chunk))],
+                "HED": [t.replace("\t", " ") for t in chunk]}
+        onsets = [str(float(j)) for j in range(6)]
+        if k % 3 == 2:
+            nsd = json.loads(json.dumps(sc_long))
+            nsd["cond"]["HED"] = {kk: F.with_namespace(v, NS) for kk, v in nsd["cond"]["HED"].items()}
+            nsd["val"]["HED"] = F.with_namespace(nsd["val"]["HED"], NS)
+            rows_ns = dict(rows, HED=[F.with_namespace(t, NS) for t in rows["HED"]])
+            run_table(w, rows_ns, nsd, onsets if k % 2 else None, version=NS_VERSION)
+        else:
+            run_table(w, rows, sc_long if k % 2 else None, onsets if k % 4 < 2 else None)
+    w.part("forms: table entry point", cases=w.evaluations - before, bound="the faulty tags (quick: every second of the "
+           "declared/alternating-case ones) in chunks of 6 rows of the HED column, with/without a long-form sidecar and an "
+           "onset column; every third table namespace-prefixed", exhaustive=False)
     # one big cross-file sort
     for k in range(5):
         perm = list(_pool_for_sort)
@@ -548,7 +720,9 @@ def run(w: Workload):
                 perm[j] = dict(x, ec_filename=["a.tsv", "b.json", "events.tsv"][j % 9 // 3])
         check_sort(w, perm, {"entry": "sort", "note": "shuffled union of all sidecar/table/dataset issues", "round": k})
     w.part("monitor totals", cases=_count["issues"], bound="issues monitored: %(issues)d, with offsets: %(with_offsets)d, "
-           "with sub-tag span: %(sub_tag)d, lists sorted: %(sorted_lists)d" % _count, exhaustive=False)
+           "with sub-tag span: %(sub_tag)d, of these judged for quoting exactly source_text[char_index:char_index_end] next "
+           "to the tag as written: %(quoted)d (+ %(quoted_no_offsets)d through index_in_tag alone), lists sorted: "
+           "%(sorted_lists)d" % _count, exhaustive=False)
     if _raised:
         w.part("entry point raised instead of returning issues (not judged by C12)", cases=len(_raised),
                bound=json.dumps(_raised[:3])[:900], exhaustive=False)
@@ -558,6 +732,11 @@ def run(w: Workload):
         "tag and group spans come from an own tokenizer: tokens are maximal runs between ',', '(' and ')' trimmed of blanks",
         "a sub-tag issue (carries index_in_tag) quotes its fragment in single quotes; a whole-tag issue must select exactly the tag",
         "stability is judged on issues that agree on every ec_* context except the HedString object",
+        "a message 'quotes a fragment' when it contains one of: 'X' in T / 'X' in tag 'T' / In 'T', 'X' / the whole tag 'T' "
+        "(T the tag as written, found by the own tokenizer around char_index); messages that do not name T are not judged by "
+        "C12.message.quotes_the_located_fragment",
+        "the long forms of Label, Building, Red, Weight, Object are hand-written from schema 8.3.0; every suffix form is "
+        "confirmed to validate cleanly before use; namespace-prefixed annotations use load_schema_version('ts:8.3.0')",
     ]
     w.not_covered += [
         "human-readable printing (get_printable_issue_string*), schema-compliance issues (C14), custom titles in sorting",
@@ -569,13 +748,16 @@ def run(w: Workload):
 def replay(w: Workload, case: dict):
     inp = case["input"]
     e = inp.get("entry")
+    ver = inp.get("schema", "8.3.0")
     if e == "string":
         run_string(w, inp["text"], count=False)
+    elif e == "located":
+        run_located(w, inp["text"], ver, inp.get("form"), count=False)
     elif e == "sidecar":
-        run_sidecar(w, inp["sidecar"], count=False)
+        run_sidecar(w, inp["sidecar"], count=False, version=ver)
     elif e == "table":
         on = inp.get("onset")
-        run_table(w, inp["rows"], inp.get("sidecar"), on if on else None, count=False)
+        run_table(w, inp["rows"], inp.get("sidecar"), on if on else None, count=False, version=ver)
     elif e == "dataset":
         run_dataset(w, inp["strings"], count=False)
     else:
